@@ -106,6 +106,7 @@ def strategy(tier):
                   st.sampled_from(["dt", "str"]), st.sampled_from(["dt", "str"])),
         st.builds(lambda i, v: ["asserted_type", i, v], st.integers(0, 30),
                   gen.value("json", ["qn", "qn", "str", "tlit", "uri", "lit"])),
+        st.sampled_from(NSS).map(lambda u: ["set_default", u]),
     )
     return st.lists(op, min_size=1, max_size=8).map(lambda ops: {"profile": "json", "ops": ops})
 
@@ -309,6 +310,10 @@ def check(case, ctx):
         if op[0] in ("readd", "set_time", "asserted_type"):
             _c05_op(b, op, items, ctx)
             nt = True
+        elif op[0] == "set_default":
+            # the default namespace may be changed between calls: later bare names mean the new one
+            b.doc.set_default_namespace(op[1])
+            ctx.count("op:set_default")
         else:
             apply_op(b, op)
         if not items:
